@@ -5,6 +5,7 @@
 -/
 import IpfixModel.Model.Agg
 import IpfixModel.Spec.C07
+import IpfixModel.Lemmas.Retry
 namespace Ipfix.C07
 open Agg
 
@@ -156,5 +157,309 @@ def cD : List CorrV := [.str [], .str [], .str [], .str [2], .str [], .str [], .
 example : Proper cS ∧ Proper cD ∧ corrRequired 2 cS = true ∧ fromSrc cS ≠ fromSrc cD := by
   refine ⟨?_, ?_, ?_, ?_⟩ <;> (try unfold Proper) <;> decide
 example : correlate cD cS = [.str [1], .str [], .str [], .str [2], .str [], .str [], .ip4 [10,0,0,1], .num 443, .num 0, .num 0, .num 0, .ip6 zero16] := by decide
+
+/-! ## Retry bound and drop: "a flow still uncorrelated when its deadline passes is retried a bounded
+    number of times and then dropped, never exported half-filled"
+    (the last clause is `Agg.callback_due_ready` / `C06.callback_only_when_due`: the callback only
+    ever sees ready flows; the helper lemmas about the scan loop are in Lemmas/Retry.lean) -/
+
+/-- C07: in every reachable state - after ANY sequence of arrivals, clock advances and expiry scans
+    (the histories of `C06.no_flow_stranded`), from the initial state with any two timeouts - every
+    flow held in the map has been retried at most MaxRetries times -/
+theorem retries_bounded (aT iT : Nat) (ops : List Op) (k : Nat) (a : AggRec)
+    (hheld : (ops.foldl step { activeT := aT, inactiveT := iT }).find k = some a) :
+    a.retries ≤ Generated.cMaxRetries := (bnd_reachable aT iT ops).find hheld
+
+/-- the same for every entry of the flow list -/
+theorem retries_bounded_entries (aT iT : Nat) (ops : List Op) :
+    ∀ p ∈ (ops.foldl step { activeT := aT, inactiveT := iT }).flows, p.2.retries ≤ Generated.cMaxRetries :=
+  bnd_reachable aT iT ops
+
+/-- the bound is an invariant of each single operation -/
+theorem retries_bound_preserved (s : State) (op : Op)
+    (h : ∀ p ∈ s.flows, p.2.retries ≤ Generated.cMaxRetries) :
+    ∀ p ∈ (step s op).flows, p.2.retries ≤ Generated.cMaxRetries := bnd_step s op h
+
+/-- an arrival never changes the retry counter; a new flow starts with 0 -/
+theorem arrival_keeps_retries (r : InRec) (a : AggRec) :
+    (update r a).retries = a.retries ∧ (create r).retries = 0 := ⟨update_retries r a, rfl⟩
+
+/-- C07, one scan: in a state satisfying the scheduling invariant of C06, a held flow `k` that is NOT
+    ready and whose queue item is due at the scan time is - by any scan that is not aborted by a
+    failing callback (so in particular by every scan whose callback never fails) - never handed to
+    the callback, and is either dropped from the map, exactly when its retry counter had already
+    reached MaxRetries, or kept, unchanged but for the retry counter, which is one higher (so it is
+    still not ready), and re-armed at (scan time + active timeout, scan time + inactive timeout).
+    Other flows, due or not, ready or not, may be present. -/
+theorem unready_due_flow_retried_or_dropped (s : State) (fail : Nat → Bool) (ra : Bool) (h : Sched s)
+    (k : Nat) (a : AggRec) (hheld : s.find k = some a) (hnr : a.ready = false)
+    (it : Item) (hit : it ∈ s.pq.toList) (hk : it.key = k)
+    (hdue : it.active ≤ s.now ∨ it.inactive ≤ s.now)
+    (hok : (scan s fail ra).2.failed = false) :
+    (∀ p ∈ (scan s fail ra).2.callbacks, p.1 ≠ k) ∧
+    ((scan s fail ra).1.find k = none ↔ Generated.cMaxRetries ≤ a.retries) ∧
+    (a.retries < Generated.cMaxRetries →
+      (scan s fail ra).1.find k = some { a with retries := a.retries + 1 } ∧
+      { key := k, active := s.now + s.activeT, inactive := s.now + s.inactiveT } ∈
+        (scan s fail ra).1.pq.toList) := by
+  obtain ⟨h1, h2, h3⟩ := scan_retry s fail ra h k a it hheld hnr hit hk hdue hok
+  refine ⟨h1, ⟨fun hn => ?_, h2⟩, h3⟩
+  apply Classical.byContradiction
+  intro hlt
+  rw [(h3 (by omega)).1] at hn
+  cases hn
+
+/-- the same in a reachable state, where the counter is bounded: the flow is dropped exactly when
+    its counter EQUALS MaxRetries, otherwise kept with the counter one higher and still not ready -/
+theorem unready_due_flow_retried_or_dropped_reachable (aT iT : Nat) (ops : List Op) (fail : Nat → Bool)
+    (ra : Bool) (k : Nat) (a : AggRec) (it : Item) :
+    let s := ops.foldl step { activeT := aT, inactiveT := iT }
+    s.find k = some a → a.ready = false → it ∈ s.pq.toList → it.key = k →
+    (it.active ≤ s.now ∨ it.inactive ≤ s.now) → (scan s fail ra).2.failed = false →
+    (∀ p ∈ (scan s fail ra).2.callbacks, p.1 ≠ k) ∧
+    ((scan s fail ra).1.find k = none ↔ a.retries = Generated.cMaxRetries) ∧
+    (a.retries ≠ Generated.cMaxRetries → ∃ a', (scan s fail ra).1.find k = some a' ∧
+      a'.ready = false ∧ a'.retries = a.retries + 1 ∧ a'.retries ≤ Generated.cMaxRetries) := by
+  intro s hheld hnr hit hk hdue hok
+  have hb := retries_bounded aT iT ops k a hheld
+  obtain ⟨h1, h2, h3⟩ := unready_due_flow_retried_or_dropped s fail ra (sched_reachable aT iT ops) k a
+    hheld hnr it hit hk hdue hok
+  refine ⟨h1, ?_, ?_⟩
+  · rw [h2]; omega
+  · intro hne
+    have hlt : a.retries < Generated.cMaxRetries := by omega
+    exact ⟨_, (h3 hlt).1, hnr, rfl, hlt⟩
+
+/-! ### several scans -/
+
+/-- one round of the history after `k`'s last record: records (of other flows) arrive, the clock
+    advances by `d`, then the expiry scan runs (its callback failing on the keys in `fail`) -/
+structure Round where
+  recs : List InRec
+  d : Nat
+  fail : List Nat
+  resetAfter : Bool
+
+/-- the round as operations of the histories of C06 -/
+def Round.ops (r : Round) : List Op := r.recs.map Op.record ++ [Op.adv r.d, Op.scan r.fail r.resetAfter]
+/-- the state in which the round's scan runs -/
+def Round.pre (r : Round) (s : State) : State := { r.recs.foldl ingest s with now := (r.recs.foldl ingest s).now + r.d }
+/-- the state after the round -/
+def Round.post (r : Round) (s : State) : State := (scan (r.pre s) (fun k => r.fail.contains k) r.resetAfter).1
+/-- what the round's scan handed to the callback -/
+def Round.out (r : Round) (s : State) : ScanOut := (scan (r.pre s) (fun k => r.fail.contains k) r.resetAfter).2
+
+/-- the state after the rounds, and the outputs of their scans -/
+def runRounds : State → List Round → State × List ScanOut
+  | s, [] => (s, [])
+  | s, r :: rs => ((runRounds (r.post s) rs).1, r.out s :: (runRounds (r.post s) rs).2)
+
+theorem foldl_ingest_eq (recs : List InRec) (s : State) :
+    (recs.map Op.record).foldl step s = recs.foldl ingest s := by
+  induction recs generalizing s with
+  | nil => rfl
+  | cons r t ih => exact ih (ingest s r)
+
+theorem round_post_eq (r : Round) (s : State) : r.post s = r.ops.foldl step s := by
+  unfold Round.ops
+  rw [List.foldl_append, foldl_ingest_eq]
+  rfl
+
+/-- the rounds are histories in the sense of `C06.no_flow_stranded` / `retries_bounded` -/
+theorem runRounds_eq_history (rs : List Round) (s : State) :
+    (runRounds s rs).1 = (rs.flatMap Round.ops).foldl step s := by
+  induction rs generalizing s with
+  | nil => rfl
+  | cons r t ih =>
+    rw [List.flatMap_cons, List.foldl_append, ← round_post_eq]
+    exact ih (r.post s)
+
+/-- arrivals for other flows and a clock advance leave `k`'s record, `k`'s queue item and the
+    timeouts alone -/
+theorem round_pre_facts (r : Round) (s : State) (h : Sched s) (k : Nat) (it : Item)
+    (hno : ∀ x ∈ r.recs, x.key ≠ k) (hit : it ∈ s.pq.toList) (hk : it.key = k) :
+    Sched (r.pre s) ∧ (r.pre s).find k = s.find k ∧ it ∈ (r.pre s).pq.toList ∧
+    (r.pre s).now = s.now + r.d ∧ (r.pre s).activeT = s.activeT ∧ (r.pre s).inactiveT = s.inactiveT := by
+  unfold Round.pre
+  show Sched (List.foldl ingest s r.recs) ∧ (List.foldl ingest s r.recs).find k = s.find k ∧
+    it ∈ (List.foldl ingest s r.recs).pq.toList ∧ (List.foldl ingest s r.recs).now + r.d = s.now + r.d ∧
+    (List.foldl ingest s r.recs).activeT = s.activeT ∧ (List.foldl ingest s r.recs).inactiveT = s.inactiveT
+  generalize r.recs = recs at hno
+  induction recs generalizing s with
+  | nil => exact ⟨h, rfl, hit, rfl, rfl, rfl⟩
+  | cons x t ih =>
+    have hx : x.key ≠ k := hno x List.mem_cons_self
+    obtain ⟨g1, g2, g3, g4, g5, g6⟩ := ih (ingest s x) (sched_ingest s x h)
+      (ingest_other_items s x h it hit (by rw [hk]; exact fun e => hx e.symm))
+      (fun y hy => hno y (List.mem_cons_of_mem _ hy))
+    refine ⟨g1, g2.trans (ingest_find_ne s x k (Ne.symm hx)), g3, ?_, g5.trans (ingest_activeT s x),
+      g6.trans (ingest_inactiveT s x)⟩
+    rw [ingest_now] at g4
+    exact g4
+
+/-- the induction behind `uncorrelated_flow_dropped_after_bounded_retries` -/
+theorem drop_after_rounds (k : Nat) (rest : List Round) :
+    ∀ (r0 : Round) (s : State) (a : AggRec) (it : Item), Sched s → s.find k = some a → a.ready = false →
+    it ∈ s.pq.toList → it.key = k → a.retries + rest.length = Generated.cMaxRetries →
+    (∀ r ∈ r0 :: rest, ∀ x ∈ r.recs, x.key ≠ k) →
+    (it.active ≤ s.now + r0.d ∨ it.inactive ≤ s.now + r0.d) →
+    (∀ r ∈ rest, s.activeT ≤ r.d ∨ s.inactiveT ≤ r.d) →
+    (∀ o ∈ (runRounds s (r0 :: rest)).2, o.failed = false) →
+    (runRounds s (r0 :: rest)).1.find k = none ∧
+    (∀ o ∈ (runRounds s (r0 :: rest)).2, ∀ p ∈ o.callbacks, p.1 ≠ k) ∧
+    (∀ j, j < (r0 :: rest).length →
+      (runRounds s ((r0 :: rest).take j)).1.find k = some { a with retries := a.retries + j }) := by
+  induction rest with
+  | nil =>
+    intro r0 s a it h hheld hnr hit hk hlen hno hdue0 _ hok
+    obtain ⟨g1, g2, g3, g4, g5, g6⟩ := round_pre_facts r0 s h k it (hno r0 List.mem_cons_self) hit hk
+    have hok0 : (r0.out s).failed = false := hok _ List.mem_cons_self
+    obtain ⟨c1, c2, _⟩ := scan_retry (r0.pre s) (fun k => r0.fail.contains k) r0.resetAfter g1 k a it
+      (g2.trans hheld) hnr g3 hk (by unfold Due; rw [g4]; exact hdue0) hok0
+    refine ⟨c2 (by simp at hlen; omega), ?_, ?_⟩
+    · intro o ho
+      rw [show o = r0.out s from List.mem_singleton.mp ho]
+      exact c1
+    · intro j hj
+      have : j = 0 := by simp at hj; exact hj
+      subst this
+      exact hheld
+  | cons r1 rest ih =>
+    intro r0 s a it h hheld hnr hit hk hlen hno hdue0 hdue hok
+    obtain ⟨g1, g2, g3, g4, g5, g6⟩ := round_pre_facts r0 s h k it (hno r0 List.mem_cons_self) hit hk
+    have hok0 : (r0.out s).failed = false := hok _ List.mem_cons_self
+    have hlt : a.retries < Generated.cMaxRetries := by simp at hlen; omega
+    obtain ⟨c1, _, c3⟩ := scan_retry (r0.pre s) (fun k => r0.fail.contains k) r0.resetAfter g1 k a it
+      (g2.trans hheld) hnr g3 hk (by unfold Due; rw [g4]; exact hdue0) hok0
+    obtain ⟨c3, c4⟩ := c3 hlt
+    have hnow : (r0.post s).now = s.now + r0.d := (scan_now _ _ _ g1).trans g4
+    have hA : (r0.post s).activeT = s.activeT := (scan_activeT _ _ _ g1).trans g5
+    have hI : (r0.post s).inactiveT = s.inactiveT := (scan_inactiveT _ _ _ g1).trans g6
+    obtain ⟨d1, d2, d3⟩ := ih r1 (r0.post s) { a with retries := a.retries + 1 } _
+      (sched_scan _ _ _ g1) c3 hnr c4 rfl (by simp at hlen ⊢; omega)
+      (fun r hr => hno r (List.mem_cons_of_mem _ hr))
+      (by
+        show (r0.pre s).now + (r0.pre s).activeT ≤ (r0.post s).now + r1.d ∨
+          (r0.pre s).now + (r0.pre s).inactiveT ≤ (r0.post s).now + r1.d
+        rw [hnow, g4, g5, g6]
+        have := hdue r1 List.mem_cons_self
+        omega)
+      (fun r hr => by rw [hA, hI]; exact hdue r (List.mem_cons_of_mem _ hr))
+      (fun o ho => hok o (List.mem_cons_of_mem _ ho))
+    refine ⟨d1, ?_, ?_⟩
+    · intro o ho
+      rcases List.mem_cons.mp ho with e | ho
+      · rw [e]; exact c1
+      · exact d2 o ho
+    · intro j hj
+      cases j with
+      | zero => exact hheld
+      | succ j =>
+        have := d3 j (by simp at hj ⊢; omega)
+        rw [List.take_succ_cons]
+        show (runRounds (r0.post s) (List.take j (r1 :: rest))).1.find k = _
+        rw [this]
+        have e : a.retries + 1 + j = a.retries + (j + 1) := by omega
+        simp only [e]
+
+/-- C07, "retried a bounded number of times and then dropped": let flow `k` be held and not ready,
+    with retry counter `a.retries`, in a state satisfying the scheduling invariant of C06 (any other
+    flows may be present). Then come `MaxRetries + 1 - a.retries` rounds `r0 :: rest`, in each of
+    which records of OTHER flows arrive (no record for `k` arrives any more), the clock advances and
+    an expiry scan runs, such that each scan runs when `k`'s item is due - the first advance reaches
+    one of the two deadlines of `k`'s item, every later advance is at least one of the two timeouts,
+    i.e. reaches the deadline the previous scan re-armed `k` with - and no scan is aborted by a
+    failing callback. Then after the last round `k` is no longer held, none of the scans handed `k`
+    to the callback, and after `j` of the rounds (`j` less than their number) `k` was still held,
+    unchanged but for its retry counter `a.retries + j`. -/
+theorem uncorrelated_flow_dropped_after_bounded_retries (s : State) (h : Sched s) (k : Nat) (a : AggRec)
+    (hheld : s.find k = some a) (hnr : a.ready = false)
+    (it : Item) (hit : it ∈ s.pq.toList) (hk : it.key = k)
+    (r0 : Round) (rest : List Round)
+    (hlen : (r0 :: rest).length = Generated.cMaxRetries + 1 - a.retries)
+    (hno : ∀ r ∈ r0 :: rest, ∀ x ∈ r.recs, x.key ≠ k)
+    (hdue0 : it.active ≤ s.now + r0.d ∨ it.inactive ≤ s.now + r0.d)
+    (hdue : ∀ r ∈ rest, s.activeT ≤ r.d ∨ s.inactiveT ≤ r.d)
+    (hok : ∀ o ∈ (runRounds s (r0 :: rest)).2, o.failed = false) :
+    (runRounds s (r0 :: rest)).1.find k = none ∧
+    (∀ o ∈ (runRounds s (r0 :: rest)).2, ∀ p ∈ o.callbacks, p.1 ≠ k) ∧
+    (∀ j, j < (r0 :: rest).length →
+      (runRounds s ((r0 :: rest).take j)).1.find k = some { a with retries := a.retries + j }) :=
+  drop_after_rounds k rest r0 s a it h hheld hnr hit hk (by simp at hlen; omega) hno hdue0 hdue hok
+
+theorem step_timeouts (s : State) (op : Op) (h : Sched s) :
+    (step s op).activeT = s.activeT ∧ (step s op).inactiveT = s.inactiveT := by
+  cases op with
+  | record r => exact ⟨ingest_activeT s r, ingest_inactiveT s r⟩
+  | adv d => exact ⟨rfl, rfl⟩
+  | scan f ra => exact ⟨scan_activeT s _ ra h, scan_inactiveT s _ ra h⟩
+
+theorem history_timeouts (ops : List Op) (s : State) (h : Sched s) :
+    (ops.foldl step s).activeT = s.activeT ∧ (ops.foldl step s).inactiveT = s.inactiveT := by
+  induction ops generalizing s with
+  | nil => exact ⟨rfl, rfl⟩
+  | cons op ops ih =>
+    obtain ⟨h1, h2⟩ := ih _ (sched_step s op h)
+    obtain ⟨h3, h4⟩ := step_timeouts s op h
+    exact ⟨h1.trans h3, h2.trans h4⟩
+
+/-- the same for a reachable state, as one history: after ANY history `ops` (from the initial state
+    with timeouts `aT`, `iT`) that leaves flow `k` held and not ready, the continuation by
+    `MaxRetries + 1 - a.retries` rounds as above (no record for `k`, each scan when `k`'s item is due,
+    no scan aborted) ends in a state that no longer holds `k`, and no scan of the continuation handed
+    `k` to the callback -/
+theorem reachable_uncorrelated_flow_dropped (aT iT : Nat) (ops : List Op) (k : Nat) (a : AggRec) (it : Item)
+    (r0 : Round) (rest : List Round) :
+    let s := ops.foldl step { activeT := aT, inactiveT := iT }
+    s.find k = some a → a.ready = false → it ∈ s.pq.toList → it.key = k →
+    (r0 :: rest).length = Generated.cMaxRetries + 1 - a.retries →
+    (∀ r ∈ r0 :: rest, ∀ x ∈ r.recs, x.key ≠ k) →
+    (it.active ≤ s.now + r0.d ∨ it.inactive ≤ s.now + r0.d) →
+    (∀ r ∈ rest, aT ≤ r.d ∨ iT ≤ r.d) →
+    (∀ o ∈ (runRounds s (r0 :: rest)).2, o.failed = false) →
+    ((ops ++ (r0 :: rest).flatMap Round.ops).foldl step { activeT := aT, inactiveT := iT }).find k = none ∧
+    (∀ o ∈ (runRounds s (r0 :: rest)).2, ∀ p ∈ o.callbacks, p.1 ≠ k) := by
+  intro s hheld hnr hit hk hlen hno hdue0 hdue hok
+  obtain ⟨hA, hI⟩ := history_timeouts ops _ (sched_init aT iT)
+  obtain ⟨h1, h2, _⟩ := uncorrelated_flow_dropped_after_bounded_retries s (sched_reachable aT iT ops) k a
+    hheld hnr it hit hk r0 rest hlen hno hdue0
+    (fun r hr => by
+      show (ops.foldl step _).activeT ≤ r.d ∨ (ops.foldl step _).inactiveT ≤ r.d
+      rw [hA, hI]; exact hdue r hr) hok
+  refine ⟨?_, h2⟩
+  rw [List.foldl_append, ← runRounds_eq_history]
+  exact h1
+
+/-! ### Non-vacuity: a source-node record of an inter-node flow that is never correlated -/
+def rS : InRec := { key := 1, flowType := 2, corr := cS, start := 100, end_ := 101, endReason := 2,
+                    tcpState := [], stats := [1, 1, 1, 1, 1, 1, 1, 1] }
+/-- advance to the (re-armed) active deadline, scan with a callback that never fails -/
+def retryRound : Round := { recs := [], d := 100, fail := [], resetAfter := false }
+
+/-- the record arrives at t = 0 (active timeout 100, inactive timeout 250); then MaxRetries + 1 times
+    the clock advances to the flow's deadline and the scan runs: the flow is held, not ready, with
+    retry counter 0, 1, ..., MaxRetries before these scans, gone (and its queue item with it) after
+    the last one, and no scan invokes the callback -/
+example :
+    let s0 := ingest { activeT := 100, inactiveT := 250 } rS
+    let rs := List.replicate (Generated.cMaxRetries + 1) retryRound
+    (List.range (Generated.cMaxRetries + 1)).map
+        (fun j => ((runRounds s0 (rs.take j)).1.find 1).map fun a => (a.ready, a.retries)) =
+      (List.range (Generated.cMaxRetries + 1)).map (fun j => some (false, j)) ∧
+    (List.range (Generated.cMaxRetries + 1)).map
+        (fun j => (runRounds s0 (rs.take j)).1.pq.toList.map fun it => (it.key, it.active, it.inactive)) =
+      (List.range (Generated.cMaxRetries + 1)).map (fun j => [(1, 100 * j + 100, 100 * j + 250)]) ∧
+    (runRounds s0 rs).1.find 1 = none ∧ (runRounds s0 rs).1.flows.length = 0 ∧ (runRounds s0 rs).1.pq.size = 0 ∧
+    (runRounds s0 rs).2.map (fun o => (o.callbacks.length, o.failed)) =
+      List.replicate (Generated.cMaxRetries + 1) (0, false) ∧
+    (runRounds s0 rs).1.now = 100 * (Generated.cMaxRetries + 1) := by decide
+
+/-- ... whereas the destination-node record arriving in time makes the flow ready, and the next scan
+    exports it (one callback, the flow is kept: active expiry) -/
+example :
+    let s0 := ingest (ingest { activeT := 100, inactiveT := 250 } rS) { rS with corr := cD }
+    ((s0.find 1).map fun a => (a.ready, a.retries)) = some (true, 0) ∧
+    ((runRounds s0 [retryRound]).2.map fun o => o.callbacks.map fun p => (p.1, p.2.ready, p.2.corrFilled)) =
+      [[(1, true, true)]] := by decide
 
 end Ipfix.C07
